@@ -46,6 +46,10 @@ def run(ctx):
         res.add_sample({"sequence": ["NICK gate1", "PRIVMSG obs :psst", "USER plain 0 * :P"]})
     res.assumptions = ["when a configured user has its own password that one is required, otherwise the server password "
                        "(the statement leaves the precedence open; this is what the server does)"]
+    # the refusal that comes late (433 after somebody else registered the claimed nick in the meantime) under real
+    # contention: losers of simultaneous claims stay gated, the winner is welcomed, a loser may register under another nick
+    from . import common
+    common.run_storm_kinds(ctx, res, "c03:", ["claim"], 12, 80, jobs=4, jitter=2000)
     return res
 
 
